@@ -16,6 +16,12 @@ Regenerates lean/EdzedModel/Gen/TranslatedFilterObjs.lean from the CURRENT sourc
     DataEdit.__init__, the 8 operation methods -> dataEditOpSignatures (each verified to append exactly one edit
                                  function and return self; the parameters in order)
 
+    _dualmethod.__get__       -> dualGet           (class access creates a new object, instance access binds it)
+    DataEdit class attributes -> dataEditSentinels (DELETE / REJECT)
+    IfOutput/IfNotIitialized.__init__ -> ifOutputInit / ifNotInitInit (attribute stored, attribute and block
+                                 type registered with the resolver; resolverDefaultBlockType from
+                                 _BlockResolver.register), …Asserts (the assert of their __call__)
+
 (`Edge.__call__`, `not_from_undef` and the eight edit functions of `DataEdit` are translated by py2lean.py
 itself, the filter loop of `Event.send` by py2lean_dispatch.py.)
 
@@ -188,6 +194,24 @@ class TrObj:
             e1[p] = (d, 'data')
             return (f'{pad}match {lean} with\n{pad}| .mapping {d} =>\n{kthen(e1, ind + 1)}\n'
                     f'{pad}| _ =>\n{kelse(env, ind + 1)}')
+        if (isinstance(test, ast.Compare) and len(test.ops) == 1 and isinstance(test.ops[0], (ast.Is, ast.IsNot))
+                and isinstance(test.comparators[0], ast.Constant) and test.comparators[0].value is None
+                and self.path(test.left) in env and env[self.path(test.left)][1] in ('optinst', 'inst', 'noinst')):
+            # `x is None` on the `instance` argument of a descriptor (None = accessed through the class)
+            p = self.path(test.left)
+            lean, ty = env[p]
+            if isinstance(test.ops[0], ast.IsNot):
+                kthen, kelse = kelse, kthen
+            if ty == 'noinst':
+                return kthen(env, ind)
+            if ty == 'inst':
+                return kelse(env, ind)
+            v = self.new(p)
+            e1, e2 = dict(env), dict(env)
+            e1[p] = ('none', 'noinst')
+            e2[p] = (v, 'inst')
+            return (f'{pad}match {lean} with\n{pad}| none =>\n{kthen(e1, ind + 1)}\n'
+                    f'{pad}| some {v} =>\n{kelse(e2, ind + 1)}')
         if isinstance(test, ast.Compare) and len(test.ops) == 1 and type(test.ops[0]) in ORDER:
             sym, swap = ORDER[type(test.ops[0])]
             left, right = test.left, test.comparators[0]
@@ -211,6 +235,24 @@ class TrObj:
         if isinstance(node, ast.IfExp):
             return self.cond(node.test, env, ind, lambda e, i: self.result(node.body, e, i),
                              lambda e, i: self.result(node.orelse, e, i))
+        if isinstance(node, ast.Call) and self.path(node.func) in self.t.get('binds', {}):
+            # `self.__wrapped__.__get__(instance, cls)`: the wrapped function bound to an object
+            lean, atys = self.t['binds'][self.path(node.func)]
+            if node.keywords or len(node.args) != len(atys):
+                raise self.U('call ' + ast.unparse(node))
+            args = []
+            for a, want in zip(node.args, atys):
+                if (want == 'inst' and isinstance(a, ast.Call) and not a.args and not a.keywords
+                        and self.path(a.func) in env and env[self.path(a.func)][1] == 'cls'):
+                    args.append(self.t['new'])          # `cls()` written in place
+                    continue
+                ap = self.path(a) if isinstance(a, (ast.Name, ast.Attribute)) else None
+                if ap not in env or env[ap][1] != want:
+                    raise self.U(f'{ast.unparse(node)}: {ast.unparse(a)} is {env.get(ap, (None, "unknown"))[1]}, '
+                                 f'{want} needed')
+                if want != 'cls':
+                    args.append(env[ap][0])
+            return pad + lean + ''.join(' ' + a for a in args)
         p = self.path(node) if isinstance(node, (ast.Name, ast.Attribute)) else None
         if p in env:
             lean, ty = env[p]
@@ -302,6 +344,19 @@ class TrObj:
                 return (f'{pad}match {self.t["apply"]} {env[self.path(val.func)][0]} {a} with\n'
                         f'{pad}| .raise e => {self.wrap(".raise e", env)}\n'
                         f'{pad}| {v} =>\n{go(e2, ind + 1)}')
+            # x = y for the `instance` argument (an alias, no new object)
+            if (isinstance(val, ast.Name) and val.id in env and env[val.id][1] in ('optinst', 'inst', 'noinst')
+                    and isinstance(tgt, ast.Name)):
+                e2 = dict(env)
+                e2[tp] = env[val.id]
+                return go(e2, ind)
+            # x = cls(): a new object of the class, constructed without arguments
+            if (isinstance(val, ast.Call) and not val.args and not val.keywords
+                    and self.path(val.func) in env and env[self.path(val.func)][1] == 'cls'):
+                v = self.new(tp)
+                e2 = dict(env)
+                e2[tp] = (v, 'inst')
+                return f'{pad}let {v} := {self.t["new"]}\n' + go(e2, ind)
             text, ty = self.pure(val, env)
             want = self.t.get('attrs', {}).get(tp)
             if want is not None and ty != want:
@@ -405,6 +460,14 @@ def targets(h):
              params=[('applyEdit', 'φ → Data → FRes'), ('editlist', 'List φ'), ('data', 'Data')],
              names={'applyEdit': ('applyEdit', 'prim'), 'self._editlist': ('editlist', 'edits'),
                     'data': ('data', 'data')}, out='FRes'),
+        dict(name='dualGet',
+             doc='filters._dualmethod.__get__ (`instance`: None when the operation is looked up on the class; '
+                 '`newInstance` = `cls()`; `bind obj` = the wrapped function bound to `obj`)',
+             node=lambda: h.fn_ast(filters._dualmethod.__get__), generic='{ι μ : Type} ', new='newInstance',
+             params=[('newInstance', 'ι'), ('bind', 'ι → μ'), ('inst', 'Option ι')],
+             names={'instance': ('inst', 'optinst'), 'cls': ('cls', 'cls')},
+             binds={'self.__wrapped__.__get__': ('bind', ('inst', 'cls'))}, out='μ',
+             fall=lambda e, i: (_ for _ in ()).throw(h.Untranslatable('__get__ returns None on some path'))),
     ], dict(name='isInitialized', doc='block.SBlock.is_initialized', node=lambda: h.fn_ast(block.SBlock.is_initialized),
             params=[('output', 'Val')], names={'self._output': ('output', 'val'), 'UNDEF': ('Val.undef', 'val')})
 
@@ -517,6 +580,102 @@ def op_signatures(h):
     return L
 
 
+BLOCK_TYPES = {'block.Block': '.block', 'block.SBlock': '.sblock', 'block.CBlock': '.cblock'}
+
+
+def resolver_default(h):
+    """the default of `block_type` in `_BlockResolver.register` (= `Circuit.resolve_name`)"""
+    from edzed import simulator
+    fn = h.fn_ast(simulator._BlockResolver.register)
+    names = [a.arg for a in fn.args.args]
+    if names != ['self', 'obj', 'attr', 'block_type'] or len(fn.args.defaults) != 1 or fn.args.kwonlyargs:
+        raise h.Untranslatable(f'signature of _BlockResolver.register: {names}')
+    d = ast.unparse(fn.args.defaults[0])
+    if d not in BLOCK_TYPES:
+        raise h.Untranslatable(f'default block_type {d}')
+    return f'def resolverDefaultBlockType : BlockType := {BLOCK_TYPES[d]}'
+
+
+def ctrl_init(h, cls, name):
+    """`__init__` of a control-block filter: `self.<attr> = <the argument>` and then
+    `simulator.get_circuit().resolve_name(self, '<attr>'[, block_type=<class>])`, nothing else"""
+    fn = h.fn_ast(cls.__init__)          # the constructor Python would run (an inherited one included)
+    U = h.Untranslatable
+    a = fn.args
+    if len(a.args) != 2 or a.vararg or a.kwarg or a.kwonlyargs or a.defaults:
+        raise U('signature of the constructor')
+    param = a.args[1].arg
+    stored = registered = btype = None
+    for s in fn.body:
+        if isinstance(s, ast.Expr) and isinstance(s.value, ast.Constant) and isinstance(s.value.value, str):
+            continue
+        if (isinstance(s, ast.Assign) and len(s.targets) == 1 and isinstance(s.targets[0], ast.Attribute)
+                and isinstance(s.targets[0].value, ast.Name) and s.targets[0].value.id == 'self'
+                and isinstance(s.value, ast.Name) and s.value.id == param and stored is None and registered is None):
+            stored = s.targets[0].attr
+        elif (isinstance(s, ast.Expr) and isinstance(s.value, ast.Call)
+              and ast.unparse(s.value.func) == 'simulator.get_circuit().resolve_name' and registered is None):
+            if stored is None:
+                raise U('the reference is registered before it is stored')
+            c = s.value
+            pos = list(c.args)
+            kws = {k.arg: k.value for k in c.keywords}
+            if (len(pos) not in (2, 3) or not (isinstance(pos[0], ast.Name) and pos[0].id == 'self')
+                    or not (isinstance(pos[1], ast.Constant) and isinstance(pos[1].value, str))
+                    or set(kws) - {'block_type'} or (len(pos) == 3 and kws)):
+                raise U('arguments of resolve_name: ' + ast.unparse(c))
+            registered = pos[1].value
+            bt = pos[2] if len(pos) == 3 else kws.get('block_type')
+            if bt is None:
+                btype = 'resolverDefaultBlockType'
+            elif ast.unparse(bt) in BLOCK_TYPES:
+                btype = BLOCK_TYPES[ast.unparse(bt)]
+            else:
+                raise U('block_type ' + ast.unparse(bt))
+        else:
+            raise U('statement ' + ast.unparse(s)[:70])
+    if stored is None or registered is None:
+        raise U('the reference is not stored / not registered')
+    return (f'def {name} : CtrlRef :=\n  {{ stored := {json.dumps(stored)}, registered := {json.dumps(registered)}, '
+            f'blockType := {btype} }}')
+
+
+def ctrl_asserts(h, cls, name):
+    """the sanity check at the beginning of `__call__`: `assert isinstance(self.<attr>, <class>)` (at most one)"""
+    fn = h.fn_ast(cls.__call__)
+    found = []
+    for s in ast.walk(fn):
+        if isinstance(s, ast.Assert):
+            t = s.test
+            if not (isinstance(t, ast.Call) and isinstance(t.func, ast.Name) and t.func.id == 'isinstance'
+                    and len(t.args) == 2 and isinstance(t.args[0], ast.Attribute)
+                    and isinstance(t.args[0].value, ast.Name) and t.args[0].value.id == 'self'
+                    and ast.unparse(t.args[1]) in BLOCK_TYPES):
+                raise h.Untranslatable('assert ' + ast.unparse(t))
+            found.append((t.args[0].attr, BLOCK_TYPES[ast.unparse(t.args[1])]))
+    if len(found) > 1 or (found and not isinstance(fn.body[0 if not isinstance(fn.body[0], ast.Expr) else 1], ast.Assert)):
+        raise h.Untranslatable('more than one assert / not the first statement')
+    val = 'none' if not found else f'some ({json.dumps(found[0][0])}, {found[0][1]})'
+    return f'def {name} : Option (String × BlockType) := {val}'
+
+
+def sentinels(h):
+    """the class-level assignments of DataEdit: the markers a modify() function may return"""
+    from edzed.blocklib import filters
+    import inspect
+    import textwrap
+    tree = ast.parse(textwrap.dedent(inspect.getsource(filters.DataEdit)))
+    rows = []
+    for s in tree.body[0].body:
+        if isinstance(s, (ast.Assign, ast.AnnAssign)):
+            tg = s.targets if isinstance(s, ast.Assign) else [s.target]
+            if len(tg) != 1 or not isinstance(tg[0], ast.Name) or s.value is None:
+                raise h.Untranslatable('class-level assignment ' + ast.unparse(s))
+            rows.append((tg[0].id, ast.unparse(s.value)))
+    return ('def dataEditSentinels : List (String × String) :=\n  ['
+            + ', '.join(f'({json.dumps(n)}, {json.dumps(v)})' for n, v in rows) + ']')
+
+
 def main_filters(outfile, h):
     L = ['/- GENERATED by tools/py2lean_filters.py (via tools/py2lean.py) from the Python source of edzed',
          '   (blocklib/filters.py: Edge.__init__, Delta, IfOutput, IfNotIitialized, DataEdit.__call__;',
@@ -550,6 +709,17 @@ def main_filters(outfile, h):
     for t in objs:
         h.emit(L, t, translate, t.get('header', ''))
     L += op_signatures(h) + ['']
+    from edzed.blocklib import filters
+    h.emit(L, dict(name='dataEditSentinels', doc='filters.DataEdit: the class attributes (expression text); '
+                   '`object()` = a fresh object, identical to nothing else'), lambda t: sentinels(h), '')
+    h.emit(L, dict(name='resolverDefaultBlockType', doc='simulator._BlockResolver.register: default of block_type'),
+           lambda t: resolver_default(h), '')
+    for cls, nm in ((filters.IfOutput, 'ifOutput'), (filters.IfNotIitialized, 'ifNotInit')):
+        h.emit(L, dict(name=nm + 'Init', doc=f'filters.{cls.__name__}.__init__'),
+               lambda t, cls=cls, nm=nm: ctrl_init(h, cls, nm + 'Init'),
+               ': where the control block reference is stored and how it is registered with the resolver')
+        h.emit(L, dict(name=nm + 'Asserts', doc=f'filters.{cls.__name__}.__call__: the leading assert'),
+               lambda t, cls=cls, nm=nm: ctrl_asserts(h, cls, nm + 'Asserts'), '')
     L.append('end Edzed.Gen.TrFo')
     h.write_if_changed(outfile, '\n'.join(L) + '\n')
 
